@@ -63,6 +63,17 @@ fn char_strategy(p: NameProfile) -> BoxedStrategy<char> {
 
 /// A valid name (1..=31 units, not "." or "..").
 pub fn valid_name(p: NameProfile) -> BoxedStrategy<String> {
+    if p != NameProfile::Ascii {
+        // one name in 25 is long and made of wide characters: up to 31 UTF-16 units but
+        // 60-93 UTF-8 bytes (the 64-byte name field counts UTF-16 code units, not bytes)
+        let wide = (proptest::sample::select(vec!['\u{3042}', '\u{4E00}', '\u{AC00}', '\u{0416}', '\u{00E9}']), proptest::sample::select(vec!['\u{30A2}', '\u{9FA5}', 'x', '\u{044F}']), 20usize..=31, any::<u8>())
+            .prop_map(|(a, b, n, k)| (0..n).map(|i| if (i as u8).wrapping_mul(k | 1) % 5 == 0 { b } else { a }).collect::<String>());
+        return prop_oneof![24 => valid_name_mixed(p), 1 => wide].boxed();
+    }
+    valid_name_mixed(p)
+}
+
+fn valid_name_mixed(p: NameProfile) -> BoxedStrategy<String> {
     let len = prop_oneof![6 => 1usize..=4, 3 => 5usize..=12, 1 => 13usize..=29, 2 => 30usize..=31];
     (len, vec(char_strategy(p), 31))
         .prop_map(|(len, chars)| {
